@@ -20,7 +20,8 @@ the caller of parse - empties the returned record and writes a foreign key into 
 implementation hands out a second time comes back without its entries and fails (i).
 
 Case kinds (one case = one shard of calls run by one worker): `strings` (streams soup, mutant, nest, literal, literal-pow,
-redos, unicode, fn-edge, fn-pattern, fn-empty: a list of inputs for the shared `soup` parser), `wf` (well-formed formulas of the
+redos, unicode, fn-edge, fn-pattern, fn-empty, debug: a list of inputs for the shared `soup` parser or, when the case carries the key
+`setup`: 'debug', for the shared `debug` parser - one constructed with debug=True whose output goes to a sink), `wf` (well-formed formulas of the
 C04/C08 generators on their parsers, compared with the model), `long` (one input given as pre + sep.join([unit] * n) + post),
 `fn` (one registered name x one arity x pool tuples, on the shared `pool` parser), `host` (one callback behaviour x its
 formulas, a fresh parser per call), `subs` (one host program x its formulas, a fresh parser per call).
@@ -103,8 +104,8 @@ RULE_STATIC = (
     '+ every token text and illegal character alone + "", " ", "=", "=1", "=1+1"; wf = the well-formed formulas of 500 (4000) '
     'x scale seeded trees of depth 1..5 (1..7): 55 % C04 operator trees (c04.gen_top as it runs outside C04\'s own cases(): no '
     'error leaves, no blank operands, no non-dyadic decimals) rendered minimal, fully '
-    'parenthesised and with white space / an outer parenthesis (3 formulas per tree), on the C04 parser (its ID function and cell and variable '
-    'listeners re-enter parse), 45 % C08 error-propagation trees (c08.gen, error-leaf probability 0.15/0.3/0.6: 4 % a text '
+    'parenthesised and with white space / an outer parenthesis (3 formulas per tree), on the C04 parser (its host functions ID and ABS - both the identity, drawn 70 / 30 % for the call nodes - and its cell and variable '
+    'listeners re-enter parse; its variable ovr is registered with 999 and answered with 41 by the variable listener, 41 being the value in c04.ENV), 45 % C08 error-propagation trees (c08.gen, error-leaf probability 0.15/0.3/0.6: 4 % a text '
     'that spells an error code, else numeric / comparison / & trees over prime literals whose error leaves are in 15 % an '
     'error operand against an array operand of + - * /, else 55 % classic '
     'producers - error literals, e_ variables, n/0, "a"+1, NA(), SUM(1/0), RAISE_x(), PYRAISE(), ID(1/0) -, 45 % family '
@@ -144,7 +145,15 @@ RULE_STATIC = (
     'strings case per name, on the soup parser) = every name on the empty and ragged arrays only the host can supply - the '
     '5 operands vempty, vragged, vnest0, Z1:Z2, Z1:Z3 alone, as first argument before 1, "a", vempty, as second after 1, "a", as '
     'NAME(1,x,2) and NAME(x,1,1): 40 calls per name - + one case of 11 operator formulas over them (vempty, vempty+1, 1-vragged, '
-    'vempty&"a", vempty=vempty, -vempty, Z1:Z2, Z1:Z3*2, {1,2}+vempty, vnest0*vnest0, IF(vempty,1,2)); (d) host = a '
+    'vempty&"a", vempty=vempty, -vempty, Z1:Z2, Z1:Z3*2, {1,2}+vempty, vnest0*vnest0, IF(vempty,1,2)); debug = 2 strings cases: '
+    'one on the debug parser (set-up `debug`: hotxlfp.Parser(debug=True), one per worker, va..vn = the pool, function ID, a cell '
+    'listener over the 4 cells, no range listener, no vempty / vragged / vnest0; sys.stdout and sys.stderr are an io.StringIO '
+    'for the duration of every parse, so what the parser prints goes to a sink) of 16 fixed formulas (aggregates handed an error '
+    'value - SUM(LN(0),1), MAX(SQRT(-1),2), AVERAGE(1/0,1), PRODUCT({1,2},ACOS(5)), COUNT(1,NA()), MIN(#REF!,1), SUM(nosuch,1), '
+    'SUM(A1,LN(0)) -, 1+, #FOO, NOSUCH(1), SUM(, CONCATENATE(1/0,"a"), AND(1/0,TRUE), ID(1/0)+1, LARGE({1,2},5)) + 3 per each of '
+    'min(N, 40 x scale) sampled names (NAME(LN(0)), NAME(1,SQRT(-1)), NAME({1,2},1/0)) + the 4 fall-backs 1+, #FOO, SUM(LN(0),1), '
+    'NOSUCH(1) once more (140 calls at scale 1), then one on the soup parser of the 5 fall-backs 1+, #FOO, NOSUCH(1), '
+    'SUM(LN(0),1), ID(1/0)+ - judged by (i)-(v) like every other call; (d) host = a '
     'fresh parser per call (variable a = 3, function ID) with one misbehaving callback: a custom function F (69 behaviours x 16 formula forms), the value of '
     'variable x (31 values x 14 forms), a listener on each of the four events (71 behaviours x 6..7 forms). return/hold (31): '
     'any pool value, a foreign XLError("#WEIRD"), an XLError subclass, one whose __str__ raises, XLError() without message, '
@@ -177,7 +186,7 @@ RULE_STATIC = (
     'the Lean model, same formulas and environment): wf formulas; fn calls of the builtins the Lean driver reports as modelled '
     '(125 of the 156; quick: arities 0..2 complete + the samples; thorough: 0..3 complete + the sample of 4); host function F '
     'that returns a pool value or raises a singleton or a ValueError, host variable x holding a pool value; all else (soup, '
-    'mutant, nest, literal, literal-pow, redos, unicode, long, fn-edge, fn-pattern, fn-empty, the thorough arity-4 shards, '
+    'mutant, nest, literal, literal-pow, redos, unicode, long, fn-edge, fn-pattern, fn-empty, debug, the thorough arity-4 shards, '
     'listeners, re-entering and odd host values, subs - the '
     'model has no subscriptions) is oracle only. Records agree up to 4 ulps or 1e-9 relative (absolute below 1) on floats, 2 us + 2^-49 relative '
     'on dates, a logical may stand for the model integer of the same value; a model answer with another number of records than formulas is a disagreement; not '
@@ -214,7 +223,12 @@ TRUSTED = ['the step counter (sys.monitoring JUMP + PY_START events, CPython >= 
            'its data lazily)',
            'strings, fn and wf calls of one worker share one parser per set-up (host and subs calls get a fresh one); only the '
            'two array pool values (vm, vn, on the pool and soup parsers) are restored between calls; the host arrays vempty, '
-           'vragged, vnest0 of the soup parser and the variables of the C04 and C08 parsers are not',
+           'vragged, vnest0 of the soup parser, the pool variables of the debug parser and the variables of the C04 and C08 '
+           'parsers are not',
+           'stream debug: a parser constructed with debug=True writes what it meets to sys.stdout / sys.stderr only; both are '
+           'replaced by an io.StringIO around every parse of that parser (parse is wrapped on the instance) and restored '
+           'afterwards, the steps of the wrapper and of the printing count towards the budget of the call; oracle only (no model '
+           'request)',
            'stream fn-empty (empty and ragged arrays handed over by the host - variables vempty, vragged, vnest0, the range '
            'listener\'s answers for Z1:Z2 and Z1:Z3 - given to every registered name) is oracle only: no model request carries an '
            'empty or ragged array',
